@@ -291,6 +291,55 @@ pub fn crosscheck_regex_automata(text: &str, mine: &Dfa) -> Result<(), String> {
 }
 
 /// %regex substring terminals; reference = explicit finite set of chunk-contiguous concatenations
+/// every chunk list over a small chunk alphabet up to a length bound (suffix-automaton shapes:
+/// repeated chunks, runs, a chunk recurring after a run)
+fn substring_family(quick: bool) -> Vec<RxJob> {
+    let mut v = vec![];
+    let mut add = |chunks: Vec<String>| {
+        let mut r = R::Eps;
+        for i in 0..chunks.len() {
+            for j in (i + 1)..=chunks.len() {
+                r = alt(r, lit(&chunks[i..j].concat()));
+            }
+        }
+        let js = serde_json::to_string(&chunks).unwrap();
+        v.push(RxJob { r, entry: "substring_family", g: GrammarSpec::Lark(format!("start: T\nT: %regex {{ \"substring_chunks\": {} }}", js)) });
+    };
+    let families: Vec<(Vec<&str>, usize)> = if quick {
+        vec![(vec!["a", "b"], 6), (vec!["a", "b", "c"], 4), (vec!["a", "ab", "b"], 3)]
+    } else {
+        vec![(vec!["a", "b"], 9), (vec!["a", "b", "c"], 6), (vec!["a", "ab", "b"], 5), (vec!["a", "é", "ba"], 4)]
+    };
+    for (alpha, maxlen) in families {
+        for len in 1..=maxlen {
+            let mut idx = vec![0usize; len];
+            loop {
+                add(idx.iter().map(|i| alpha[*i].to_string()).collect());
+                let mut p = len;
+                loop {
+                    if p == 0 {
+                        break;
+                    }
+                    p -= 1;
+                    idx[p] += 1;
+                    if idx[p] < alpha.len() {
+                        break;
+                    }
+                    idx[p] = 0;
+                    if p == 0 {
+                        p = usize::MAX;
+                        break;
+                    }
+                }
+                if p == usize::MAX || (p == 0 && idx.iter().all(|x| *x == 0)) {
+                    break;
+                }
+            }
+        }
+    }
+    v
+}
+
 fn substring_jobs() -> Vec<RxJob> {
     let menus: Vec<Vec<&str>> = vec![
         vec!["ab", "c", "ba"],
@@ -399,6 +448,9 @@ pub fn run(ctx: &Ctx) -> Coverage {
         jobs.push(RxJob { r: r.clone(), entry: "from_regex_corpus", g: GrammarSpec::Regex(text.clone()) });
     }
     jobs.extend(substring_jobs());
+    let fam = substring_family(ctx.quick());
+    ctx.count("substring_family_jobs", fam.len() as u64);
+    jobs.extend(fam);
     ctx.note(format!("{} regex ASTs, {} (regex, entry point) jobs", all.len(), jobs.len()));
     let f_holder: Vec<Factory> = (0..1).map(|_| Factory::new(&vocab, &Slices::None).unwrap()).collect();
     let _ = f_holder;
